@@ -26,6 +26,10 @@ pub fn unix_timestamp() -> u64 {
 
 #[cfg(not(target_arch = "wasm32"))]
 pub fn ts_ms() -> u64 {
+    #[cfg(bp7_verif)]
+    if let Some(ms) = crate::verif_hooks::clock_ms() {
+        return ms;
+    }
     SystemTime::now()
         .duration_since(UNIX_EPOCH)
         .expect("Time went backwards!!")
